@@ -151,3 +151,33 @@ func Harness_C01_sys_grp_reload() {
 	verifAssert(len(t.perUser) == nSubs, "subscribers-loaded")
 	verifReach("end")
 }
+
+// C07 "unsubscribing and subscribing again restores the previous grant instead of the default", p2p and
+// unloaded: the requester deleted its subscription (the soft-deleted row keeps what the peer had granted,
+// e.g. a grant without join = blocked); the topic is loaded by the requester's new {sub}.
+func Harness_C07_p2p_resub_unloaded_prev_grant() {
+	seq := verifSeq("storedSeq")
+	a, b, name := verifP2PStore(seq, 0, true)
+	prev := (verifMode("prevGiven") & types.ModeCP2P) | types.ModeApprove
+	row := verifStore.subs[verifSubKey(name, a)]
+	row.ModeGiven = prev
+	now := types.TimeNow()
+	row.DeletedAt = &now
+	t := &Topic{name: name, xoriginal: b.UserId(), perUser: map[types.Uid]perUserData{}, sessions: map[*Session]perSessionData{}}
+	sess := verifNewSession("sid-a", a, auth.LevelAuth, 32)
+	sub := &MsgClientSub{Id: "s1", Topic: b.UserId()}
+	if verifNondetBool("withMode") {
+		sub.Set = &MsgSetQuery{Sub: &MsgSetSub{Mode: verifMode("want").String()}}
+	}
+	sreg := &ClientComMessage{Id: "s1", AsUser: a.UserId(), AuthLvl: int(auth.LevelAuth), Original: b.UserId(), RcptTo: name,
+		Timestamp: now, sess: sess, init: true, Sub: sub}
+	err := initTopicP2P(t, sreg)
+	verifAssert(err == nil, "p2p-topic-loads")
+	pa := t.perUser[a]
+	verifAssert(pa.modeGiven == prev, "resubscribing-restores-the-previous-grant")
+	after := verifStore.subs[verifSubKey(name, a)]
+	verifAssert(after != nil && after.DeletedAt == nil && after.ModeGiven == prev, "stored-grant-is-the-previous-grant")
+	pb := t.perUser[b]
+	verifAssert(pb.modeGiven == types.ModeCP2P && pb.modeWant == types.ModeCP2P, "peer-modes-untouched")
+	verifReach("end")
+}
